@@ -168,15 +168,21 @@ pub trait FarmStaking:
         &self,
         farm_token_amount: BigUint,
         attributes: StakingFarmTokenAttributes<Self::Api>,
+        opt_user: OptionalValue<ManagedAddress>,
     ) -> BigUint {
         self.require_queried();
+
+        let user = match opt_user {
+            OptionalValue::Some(user) => user,
+            OptionalValue::None => attributes.original_owner.clone(),
+        };
 
         let mut storage_cache = StorageCache::new(self);
         FarmStakingWrapper::<Self>::generate_aggregated_rewards(self, &mut storage_cache);
 
         FarmStakingWrapper::<Self>::calculate_rewards(
             self,
-            &ManagedAddress::zero(),
+            &user,
             &farm_token_amount,
             &attributes,
             &storage_cache,
